@@ -394,3 +394,173 @@ Proof.
     pose proof (ceil_half_bound (Qceiling (inject_Z (atmost d m) - inject_Z T / 2)) (atmost d m) T (Qceiling_lt _)). lia. }
   lia.
 Qed.
+
+Lemma qlt_irrefl m : qlt m m = false.
+Proof. unfold qlt. rewrite Qle_bool_refl. reflexivity. Qed.
+
+Lemma block_numeric d T m ch : good d -> cs_total d = T -> In m (map fst d) -> is_med d m ->
+  (1 <= ch)%Z -> (ch = 1%Z \/ ((2 * ch <= T - 2 * below d m + 1)%Z /\ (2 * ch <= 2 * atmost d m - T + 1)%Z)) ->
+  (ch <= get0 d m)%Z /\ (get0 d m <= T)%Z /\
+  forall j, (0 <= j < ch)%Z -> is_med (adj d m (- j)) m.
+Proof.
+  intros [Hk Hnn] Ht Hin [M1 M2] H1 Hb. rewrite Ht in M1, M2.
+  pose proof (get0_cnt d m Hk) as Hg. pose proof (sumf_nonneg (fun s => qlt s m) d Hnn) as Hb0. fold (below d m) in Hb0.
+  assert (Hat : (atmost d m <= T)%Z).
+  { rewrite <- Ht, cs_total_sumf. apply sumf_mono; [exact Hnn|reflexivity]. }
+  split; [lia|]. split; [lia|]. intros j Hj. unfold is_med.
+  rewrite (total_adj d m (- j) Hk (has_In d m Hin)), (below_adj d m (- j) m Hk (has_In d m Hin)),
+          (atmost_adj d m (- j) m Hk (has_In d m Hin)), qlt_irrefl, Qle_bool_refl, Ht. lia.
+Qed.
+
+Lemma count_level (S : state) (L : list C) : NoDup (map fst S) -> NoDup L -> incl L (map fst S) ->
+  length (mj_level S L) = length L.
+Proof.
+  intros H1 H2 H3. rewrite <- (map_length fst (mj_level S L)). apply Permutation_length. apply NoDup_Permutation.
+  - apply filter_keys_NoDup_gen, H1.
+  - exact H2.
+  - intros x. unfold mj_level. split.
+    + intros H. apply in_map_iff in H. destruct H as ([c d] & <- & Hf). apply filter_In in Hf. cbn [fst] in *.
+      apply MJ_proofs.cmem_In. tauto.
+    + intros H. pose proof (H3 x H) as Hs. apply in_map_iff in Hs. destruct Hs as ([c d] & <- & Hs).
+      apply in_map_iff. exists (c, d). split; [reflexivity|]. apply filter_In. split; [exact Hs|]. apply cmem_true. exact H.
+Qed.
+
+Lemma own_remove_keys S j : map fst (own_remove S j) = map fst S.
+Proof. unfold own_remove. rewrite map_map. reflexivity. Qed.
+
+Lemma own_remove_Inv S T j : Inv S T -> (0 < T)%Z ->
+  (forall c d, In (c, d) S -> (j <= get0 d (med_of d))%Z) -> Inv (own_remove S j) (T - j).
+Proof.
+  intros [Hnd H] HT Hj. split; [rewrite own_remove_keys; exact Hnd|].
+  unfold own_remove. apply Forall_map. apply Forall_forall. intros [c d] Hin. cbn [fst snd].
+  rewrite Forall_forall in H. destruct (H _ Hin) as [Hg Ht]. cbn [snd] in *.
+  destruct (med_of_spec d T Hg Ht HT) as (_ & Hk & _). split.
+  - apply good_adj; [exact Hg|exact Hk|]. specialize (Hj c d Hin). lia.
+  - rewrite (total_adj d _ _ (proj1 Hg) (has_In d _ Hk)), Ht. lia.
+Qed.
+
+Lemma med_of_char d T g : good d -> cs_total d = T -> (0 < T)%Z -> is_med d g -> (med_of d == g)%Q.
+Proof.
+  intros [_ Hnn] Ht HT Hm. destruct (median_char d g Hnn ltac:(lia) Hm) as (g0 & E & Hq & _). unfold med_of. rewrite E. exact Hq.
+Qed.
+
+(* after j removals every candidate still has its old median; one more removal is removal j + 1 *)
+Lemma own_remove_step S T j thr : Inv S T -> (0 < T - j)%Z -> (0 <= j)%Z -> level_at S thr ->
+  (forall c d, In (c, d) S -> (j <= get0 d (med_of d))%Z /\ is_med (adj d (med_of d) (- j)) (med_of d)) ->
+  level_at (own_remove S j) thr /\ own_remove (own_remove S j) 1 = own_remove S (j + 1).
+Proof.
+  intros [Hnd H] HT Hj0 Hl Hall. rewrite Forall_forall in H.
+  assert (Hmed : forall c d, In (c, d) S -> (med_of (adj d (med_of d) (- j)) == med_of d)%Q).
+  { intros c d Hin. destruct (H _ Hin) as [Hg Ht]. cbn [snd] in *. destruct (Hall c d Hin) as [Hge Hm].
+    destruct (med_of_spec d T Hg Ht ltac:(lia)) as (_ & Hk & _).
+    apply (med_of_char _ (T - j)); [apply good_adj; [exact Hg|exact Hk|lia]| |exact HT|exact Hm].
+    rewrite (total_adj d _ _ (proj1 Hg) (has_In d _ Hk)), Ht. lia. }
+  split.
+  - intros c d' Hin. unfold own_remove in Hin. apply in_map_iff in Hin. destruct Hin as ([c0 d] & E & Hin).
+    cbn [fst snd] in E. injection E as -> <-. rewrite (Hmed c d Hin). exact (Hl c d Hin).
+  - unfold own_remove. rewrite map_map. apply map_ext_in. intros [c d] Hin. cbn [fst snd]. f_equal.
+    rewrite (adj_compat _ _ _ (- (1)) (Hmed c d Hin)), adj_adj_same. f_equal. lia.
+Qed.
+
+Lemma own_remove_length S j : length (own_remove S j) = length S.
+Proof. unfold own_remove. apply map_length. Qed.
+
+Lemma NoDup_app_left {X} (a b : list X) : NoDup (a ++ b) -> NoDup a.
+Proof.
+  induction a as [|x a IH]; intros H; [constructor|]. cbn [app] in H. inversion H as [|? ? Hx Hn]; subst.
+  constructor; [intros Hin; apply Hx; apply in_or_app; left; exact Hin|apply IH, Hn].
+Qed.
+
+Lemma filter_len_le {X} (g : X -> bool) (l : list X) : (length (filter g l) <= length l)%nat.
+Proof. induction l as [|y l IH]; [reflexivity|]. cbn [filter]. destruct (g y); cbn [length]; lia. Qed.
+
+Lemma filter_length_drop {X} (g : X -> bool) (l : list X) x : In x l -> g x = false -> (length (filter g l) < length l)%nat.
+Proof.
+  induction l as [|y l IH]; intros Hin Hg; [destruct Hin|]. cbn [filter]. destruct Hin as [->|Hin].
+  - rewrite Hg. pose proof (filter_len_le g l). cbn [length]. lia.
+  - specialize (IH Hin Hg). destruct (g y); cbn [length]; lia.
+Qed.
+
+Section Block.
+  Variables (S : state) (T : Z) (n : nat).
+  Hypothesis HI : Inv S T.
+  Hypothesis HT : (0 < T)%Z.
+  Let medians := map (fun cd : C * cscores => (fst cd, med_of (snd cd))) S.
+  Let best := gnb medians n.
+  Hypothesis Hc : Nat.eqb (count_tie best) 0 = false.
+  Hypothesis Hu : Nat.ltb 0 (untied_of best) = false.
+  Let sub1 := mj_level S (tied_of best).
+  Let ch := mj_ch sub1 medians.
+
+  Lemma block_facts : exists thr,
+    (1 <= n < length sub1)%nat /\ level_at sub1 thr /\ Inv sub1 T /\ (1 <= ch)%Z /\
+    forall c d, In (c, d) sub1 ->
+      (ch <= get0 d (med_of d))%Z /\ (get0 d (med_of d) <= T)%Z /\
+      forall j, (0 <= j < ch)%Z -> is_med (adj d (med_of d) (- j)) (med_of d).
+  Proof.
+    destruct (gnb_tie0 medians n Hc Hu) as (Hn & level & below & thr & Hp & Hl & _ & Hlen & Eb).
+    fold best in Eb. destruct HI as [Hnd Hall].
+    assert (Hkeys : map fst medians = map fst S) by (unfold medians; rewrite map_map; reflexivity).
+    assert (Htied : tied_of best = map fst level) by (rewrite Eb; apply tied_of_repeat, Hn).
+    assert (Hndm : NoDup (map fst medians)) by (rewrite Hkeys; exact Hnd).
+    assert (Hndl : NoDup (map fst level)).
+    { apply (Permutation_NoDup (Permutation_sym (Permutation_map fst Hp))) in Hndm. rewrite map_app in Hndm.
+      apply NoDup_app_left in Hndm. exact Hndm. }
+    assert (Hincl : incl (map fst level) (map fst S)).
+    { intros x Hx. rewrite <- Hkeys. apply (Permutation_in _ (Permutation_map fst Hp)). rewrite map_app. apply in_or_app. left. exact Hx. }
+    assert (Hlen1 : length sub1 = length level).
+    { unfold sub1. rewrite Htied, (count_level S _ Hnd Hndl Hincl). apply map_length. }
+    assert (HI1 : Inv sub1 T) by (apply Inv_filter; split; assumption).
+    assert (Hsub : forall c d, In (c, d) sub1 -> In (c, d) S /\ In c (map fst level)).
+    { intros c d Hin. unfold sub1, mj_level in Hin. apply filter_In in Hin. cbn [fst] in Hin. rewrite Htied in Hin.
+      split; [tauto|]. apply MJ_proofs.cmem_In. tauto. }
+    assert (Hlev : level_at sub1 thr).
+    { intros c d Hin. destruct (Hsub c d Hin) as [HinS Hc']. apply in_map_iff in Hc'. destruct Hc' as ([c0 v] & Ec & Hv).
+      cbn [fst] in Ec. subst c0. rewrite Forall_forall in Hl. pose proof (Hl _ Hv) as He. cbn [snd] in He.
+      assert (Hm1 : In (c, v) medians) by (apply (Permutation_in _ Hp); apply in_or_app; left; exact Hv).
+      assert (Hm2 : In (c, med_of d) medians) by (unfold medians; apply in_map_iff; exists (c, d); auto).
+      rewrite <- (NoDup_keys_val medians c v (med_of d) Hndm Hm1 Hm2). apply eqv_Qeq. exact He. }
+    exists thr. split; [lia|]. split; [exact Hlev|]. split; [exact HI1|]. split; [apply mj_ch_pos|].
+    intros c d Hin. destruct (Hsub c d Hin) as [HinS _]. rewrite Forall_forall in Hall. destruct (Hall _ HinS) as [Hg Ht]. cbn [snd] in *.
+    destruct (med_of_spec d T Hg Ht HT) as (_ & Hk & Hm).
+    pose proof (dget_or_own S c d Hnd HinS) as Hown. fold medians in Hown.
+    assert (Hm' : is_med d (dget_or medians c 0%Q)) by (rewrite Hown; exact Hm).
+    destruct (ch_bound sub1 medians c d T Hin Ht Hm') as [B1 B2]. rewrite Hown in B2. fold ch in B1, B2.
+    exact (block_numeric d T (med_of d) ch Hg Ht Hk Hm B1 B2).
+  Qed.
+
+  Lemma block_chain r : MJ (own_remove sub1 ch) n r -> MJ S n r.
+  Proof.
+    destruct block_facts as (thr & Hn & Hlev & HI1 & Hch & Hall). intros H.
+    assert (Hchain : forall i : nat, (Z.of_nat i < ch)%Z -> MJ (own_remove sub1 (ch - Z.of_nat i)) n r).
+    { induction i as [|i IH]; intros Hi; [rewrite Z.sub_0_r; exact H|].
+      assert (Hi' : (Z.of_nat i < ch)%Z) by lia. specialize (IH Hi').
+      set (j := (ch - Z.of_nat (Datatypes.S i))%Z). assert (Hj : (1 <= j < ch)%Z) by lia.
+      replace (ch - Z.of_nat i)%Z with (j + 1)%Z in IH by lia.
+      assert (Hgt : (0 < T - j)%Z).
+      { destruct sub1 as [|[c d] s1] eqn:E; [simpl in Hn; lia|]. destruct (Hall c d ltac:(left; reflexivity)) as (A1 & A2 & _). lia. }
+      destruct (own_remove_step sub1 T j thr HI1 Hgt ltac:(lia) Hlev) as [Hlv Hst].
+      { intros c d Hin. destruct (Hall c d Hin) as (A1 & _ & A3). split; [lia|apply A3; lia]. }
+      rewrite <- Hst in IH.
+      apply (NOOP (own_remove sub1 j) (T - j) thr n r); [|exact Hgt|exact Hlv|rewrite own_remove_length; exact Hn|exact IH].
+      apply own_remove_Inv; [exact HI1|exact HT|]. intros c d Hin. destruct (Hall c d Hin) as (A1 & _). lia. }
+    assert (H1 : MJ (own_remove sub1 1) n r).
+    { specialize (Hchain (Z.to_nat (ch - 1))). rewrite Z2Nat.id in Hchain by lia.
+      replace (ch - (ch - 1))%Z with 1%Z in Hchain by lia. apply Hchain. lia. }
+    assert (Hm : (mx S <=? 0)%Z = false).
+    { apply (mx_pos S T HI ltac:(lia)). split; [|exact HT]. intros E. unfold sub1 in Hn. rewrite E in Hn. simpl in Hn. lia. }
+    apply (MJ_tie S n medians r Hm (aggregate_Inv S T HI HT) Hc Hu).
+    fold best. fold sub1. unfold sub1 at 1, mj_level. rewrite (mj_remove_own S T _ 1 HI HT). exact H1.
+  Qed.
+
+  Lemma block_state : mj_remove sub1 medians ch = own_remove sub1 ch /\ Inv (own_remove sub1 ch) (T - ch) /\
+                      (1 <= ch <= T)%Z /\ (length sub1 <= length S)%nat.
+  Proof.
+    destruct block_facts as (thr & Hn & Hlev & HI1 & Hch & Hall).
+    split; [unfold sub1, mj_level; apply (mj_remove_own S T _ ch HI HT)|].
+    split; [apply own_remove_Inv; [exact HI1|exact HT|]; intros c d Hin; destruct (Hall c d Hin) as (A1 & _); exact A1|].
+    split.
+    - destruct sub1 as [|[c d] s1] eqn:E; [simpl in Hn; lia|]. destruct (Hall c d ltac:(left; reflexivity)) as (A1 & A2 & _). lia.
+    - unfold sub1, mj_level. apply filter_len_le.
+  Qed.
+End Block.
